@@ -51,8 +51,17 @@ THEOREMS = [
     "Jinns.Validation.vl_first_stop",
     "Jinns.Validation.vl_never_stops_when_disabled",
     "Jinns.Validation.VL_call_spec",
+    "Jinns.SolveFamily.valState_sched",
+    "Jinns.SolveFamily.outAt_sched",
+    "Jinns.SolveFamily.callsRef_sched",
+    "Jinns.SolveFamily.holdsC19_model_sched_gen",
+    "Jinns.SolveFamily.holdsC19_model_sched",
+    "Jinns.SolveFamily.holdsC19_model",
+    "Jinns.SolveFamily.holdsC19_model_vl",
+    "Jinns.SolveFamily.vlOutcomes_improved",
+    "Jinns.SolveFamily.holdsC19VL_model_partial",
 ]
-LEAN_MODULES = ["JinnsProofs.C19"]
+LEAN_MODULES = ["JinnsProofs.C19", "JinnsProofs.C19Holds"]
 RULE = ("(a) case = (period c in 1..4, script length L, chunk of scripts); every script over the 6 outcomes "
         "{improve, same, worse} x {stop, continue} of length <= 5 (quick) / <= 7 (thorough) is run on the real solve "
         "with n = c*L + 1 (one more invocation than the script length is possible); the model and Holds.C19 are "
@@ -171,6 +180,15 @@ def gen_cases(rng, tier):
         base["jit"] = False
         base["record"] = True
         cases.append({"mode": "scripted", "seg": base, "scripts": rng.sample(all_scripts(4), 3), "exhaustive": False})
+    # the Python-loop path of solve (obs_batch_sharding), with an observation generator
+    for c in ((2,) if tier == "quick" else (1, 2, 3, 4)):
+        base = _scripted_base(rng, c, 4)
+        base["gens"]["obs"] = {"n": 4, "seed": rng.randrange(1 << 30), "vals": [rng.randint(-3, 3) for _ in range(4)],
+                               "sharding_device": True}
+        base["loss"]["terms"][0][1].append(["1", [1], 3])       # the observation batch enters the loss
+        base.update(jit=False, record=True, sharding=True)
+        cases.append({"mode": "scripted", "seg": base, "exhaustive": False,
+                      "scripts": ["iswi", "isSi", "wWii", "sssI"] + rng.sample(all_scripts(4), 2 if tier == "quick" else 12)})
     # (b) the real ValidationLoss
     nb = 6 if tier == "quick" else 30
     for bi in range(nb):
@@ -190,7 +208,19 @@ def gen_cases(rng, tier):
             plain = copy.deepcopy(base)
             plain["jit"] = False
             cases.append({"mode": "vloss", "seg": plain, "variants": rng.sample(variants, 2)})
-    return cases
+        if bi == 1 or (tier != "quick" and bi % 6 == 1):
+            sh = copy.deepcopy(base)
+            if sh["gens"]["obs"] is None:
+                b = sh["gens"]["data"]["b"]
+                sh["gens"]["obs"] = {"n": max(4, b), "seed": rng.randrange(1 << 30),
+                                     "vals": [rng.randint(-3, 3) for _ in range(max(4, b))]}
+            sh["gens"]["obs"]["sharding_device"] = True
+            sh.update(jit=False, sharding=True, n=min(sh["n"], 8))
+            cases.append({"mode": "vloss", "seg": sh, "variants": rng.sample(variants, 3)})
+    # the (slow, eager) Python-loop cases go first so that they overlap with the bulk of the work
+    def _slow(c):
+        return bool((c.get("seg") or c["segs"][0]).get("sharding"))
+    return [c for c in cases if _slow(c)] + [c for c in cases if not _slow(c)]
 
 
 def shrink_candidates(case):
@@ -295,7 +325,8 @@ def nontrivial(case, obs):
 
 def tags(case, obs):
     seg = case["seg"]
-    out = [f"mode={case['mode']}", "jit_wrapped" if seg.get("jit", True) else "plain_call"]
+    out = [f"mode={case['mode']}", "python_loop(obs_batch_sharding)" if seg.get("sharding") else
+           ("jit_wrapped" if seg.get("jit", True) else "plain_call")]
     if case["mode"] == "scripted":
         out.append(f"period={seg['val']['call_every']}")
         out.append(f"script_len={len(case['scripts'][0])}" + ("" if case.get("exhaustive") else "(canonical/sample)"))
